@@ -142,4 +142,91 @@ theorem foldWin_congr' (f : α → α → α) (init : α) (g g' : Rat → Option
   · exact h _ le_rfl
   · exact h _ (le_of_lt h1)
 
+/-! ### `opAt` on operand functions that agree with `rhoD` on the operands' domains -/
+
+theorem opAt_un (cfg : DCfg) (w : DEnv α) (op : Un) (φ : F α) (g : Rat → Option α) (t : Rat)
+    (hg : g t = rhoD cfg w φ t) :
+    opAt cfg w (.un op φ) [g] t = rhoD cfg w (.un op φ) t := by
+  simp only [opAt, rhoD, hg]
+
+theorem opAt_bin (cfg : DCfg) (w : DEnv α) (op : Bin) (φ ψ : F α) (g1 g2 : Rat → Option α) (t : Rat)
+    (h1 : g1 t = rhoD cfg w φ t) (h2 : g2 t = rhoD cfg w ψ t) :
+    opAt cfg w (.bin op φ ψ) [g1, g2] t = rhoD cfg w (.bin op φ ψ) t := by
+  simp only [opAt, rhoD, h1, h2]
+
+theorem opAt_tmp1 (cfg : DCfg) (w : DEnv α) (op : T1) (φ : F α) (g : Rat → Option α) (t : Rat)
+    (hg : ∀ s, dom w φ ≤ s → g s = rhoD cfg w φ s) (ht : dom w φ ≤ t) :
+    opAt cfg w (.tmp1 op φ) [g] t = rhoD cfg w (.tmp1 op φ) t := by
+  simp only [opAt, rhoD, if_neg (not_lt.2 ht)]
+  cases op <;> simp only []
+  · exact foldWin_congr' _ _ _ _ _ _ _ hg
+  · exact foldWin_congr' _ _ _ _ _ _ _ hg
+  · exact foldWin_congr' _ _ _ _ _ _ _ (fun s hs => hg s (le_trans ht hs))
+  · exact foldWin_congr' _ _ _ _ _ _ _ (fun s hs => hg s (le_trans ht hs))
+
+theorem opAt_tb1 (cfg : DCfg) (hs : 0 ≤ cfg.scale) (w : DEnv α) (op : TB1) (a b : Nat) (φ : F α)
+    (g : Rat → Option α) (t : Rat)
+    (hg : ∀ s, dom w φ ≤ s → g s = rhoD cfg w φ s) (ht : dom w φ ≤ t) :
+    opAt cfg w (.tb1 op a b φ) [g] t = rhoD cfg w (.tb1 op a b φ) t := by
+  have ha : (0 : Rat) ≤ (a : Rat) * cfg.scale := mul_nonneg (Nat.cast_nonneg a) hs
+  simp only [opAt, rhoD, if_neg (not_lt.2 ht)]
+  cases op <;> simp only []
+  · split
+    · rfl
+    · exact foldWin_congr' _ _ _ _ _ _ _ (fun s hs => hg s (le_trans (le_max_right _ _) hs))
+  · split
+    · rfl
+    · exact foldWin_congr' _ _ _ _ _ _ _ (fun s hs => hg s (le_trans (le_max_right _ _) hs))
+  · exact foldWin_congr' _ _ _ _ _ _ _ (fun s hs => hg s (by linarith))
+  · exact foldWin_congr' _ _ _ _ _ _ _ (fun s hs => hg s (by linarith))
+
+theorem sinceInner_congr {g1 g1' g2 g2' : Rat → Option α} {d1 d2 : Rat}
+    (h1 : ∀ s, d1 ≤ s → g1 s = g1' s) (h2 : ∀ s, d2 ≤ s → g2 s = g2' s) (B1 : List Rat)
+    (t s : Rat) (hs : max d1 d2 ≤ s) :
+    sinceInner g1 g2 B1 t s = sinceInner g1' g2' B1 t s := by
+  simp only [sinceInner, h2 s (le_trans (le_max_right _ _) hs),
+    foldWin_congr' pmin pinf g1 g1' B1 s (some t)
+      (fun x hx => h1 x (le_trans (le_trans (le_max_left _ _) hs) hx))]
+
+theorem untilInner_congr {g1 g1' g2 g2' : Rat → Option α} {d1 d2 : Rat}
+    (h1 : ∀ s, d1 ≤ s → g1 s = g1' s) (h2 : ∀ s, d2 ≤ s → g2 s = g2' s) (B1 : List Rat)
+    (t s : Rat) (ht : max d1 d2 ≤ t) (hs : t ≤ s) :
+    untilInner g1 g2 B1 t s = untilInner g1' g2' B1 t s := by
+  simp only [untilInner, h2 s (le_trans (le_trans (le_max_right _ _) ht) hs),
+    foldWin_congr' pmin pinf g1 g1' B1 t (some s)
+      (fun x hx => h1 x (le_trans (le_trans (le_max_left _ _) ht) hx))]
+
+theorem opAt_tmp2 (cfg : DCfg) (w : DEnv α) (op : T2) (φ ψ : F α) (g1 g2 : Rat → Option α) (t : Rat)
+    (h1 : ∀ s, dom w φ ≤ s → g1 s = rhoD cfg w φ s)
+    (h2 : ∀ s, dom w ψ ≤ s → g2 s = rhoD cfg w ψ s) (ht : max (dom w φ) (dom w ψ) ≤ t) :
+    opAt cfg w (.tmp2 op φ ψ) [g1, g2] t = rhoD cfg w (.tmp2 op φ ψ) t := by
+  simp only [opAt, rhoD, if_neg (not_lt.2 ht)]
+  cases op <;> simp only []
+  · exact foldWin_congr' _ _ _ _ _ _ _
+      (fun s hs => sinceInner_congr h1 h2 (bps cfg w φ) t s hs)
+  · exact foldWin_congr' _ _ _ _ _ _ _
+      (fun s hs => untilInner_congr h1 h2 (bps cfg w φ) t s ht hs)
+
+theorem opAt_tb2 (cfg : DCfg) (hs : 0 ≤ cfg.scale) (w : DEnv α) (op : TB2) (a b : Nat) (φ ψ : F α)
+    (g1 g2 : Rat → Option α) (t : Rat)
+    (h1 : ∀ s, dom w φ ≤ s → g1 s = rhoD cfg w φ s)
+    (h2 : ∀ s, dom w ψ ≤ s → g2 s = rhoD cfg w ψ s) (ht : max (dom w φ) (dom w ψ) ≤ t) :
+    opAt cfg w (.tb2 op a b φ ψ) [g1, g2] t = rhoD cfg w (.tb2 op a b φ ψ) t := by
+  have ha : (0 : Rat) ≤ (a : Rat) * cfg.scale := mul_nonneg (Nat.cast_nonneg a) hs
+  simp only [opAt, rhoD, if_neg (not_lt.2 ht)]
+  cases op <;> simp only []
+  · split
+    · rfl
+    · exact foldWin_congr' _ _ _ _ _ _ _
+        (fun s hs => sinceInner_congr h1 h2 (bps cfg w φ) t s (le_trans (le_max_right _ _) hs))
+  · exact foldWin_congr' _ _ _ _ _ _ _
+      (fun s hs => untilInner_congr h1 h2 (bps cfg w φ) t s ht (by linarith))
+
+/-- closing step for a node: sampling `opAt` and reading back gives `rhoD` -/
+theorem valAt_sample_eq_rhoD (cfg : DCfg) (w : DEnv α) (node : F α) (at_ : Rat → Option α)
+    (hstep : StepOn (rhoD cfg w node) (bps cfg w node) (dom w node) none)
+    (hop : ∀ s, dom w node ≤ s → at_ s = rhoD cfg w node s) (t : Rat) (ht : dom w node ≤ t) :
+    (sample cfg w node at_).valAt t = rhoD cfg w node t := by
+  rw [valAt_sample cfg w node at_ (hstep.congr (fun s h _ => hop s h)) t ht, hop t ht]
+
 end Rtamt.Dense
